@@ -170,7 +170,8 @@ fn run_index_case(docs: &Docs, q: &[f32], k: usize, drv: &mut Driver, use_model:
         }
     }
     if use_model && (dims_ok || q.is_empty()) {
-        if q.is_empty() || order_comparable(docs, q, all_small_ints(docs, q)) {
+        let no_inf = !docs.iter().any(|(_, e)| e.iter().any(|x| x.is_infinite()));
+        if (q.is_empty() && no_inf) || (!q.is_empty() && order_comparable(docs, q, all_small_ints(docs, q))) {
             let m = drv.ask(&format!("search {} {} {}", docs_wire(docs), vhex(q), k));
             if verbose { println!("model: {m}"); }
             sum.branch("model-compared");
